@@ -156,7 +156,9 @@ func runC08(c *Ctx) {
 			return truth && callValue(cond) == as
 		}), "the login-substate assertion (a repeated or early EncryptionResponse must close the connection)")
 		// verify token
-		isTok := func(v ssa.Value) bool { return strings.HasSuffix(PathOf(v), ".VerifyToken") && strings.HasPrefix(PathOf(v), fn.Params[1].Name()+".") }
+		isTok := func(v ssa.Value) bool {
+			return strings.HasSuffix(PathOf(v), ".VerifyToken") && strings.HasPrefix(PathOf(v), fn.Params[1].Name()+".")
+		}
 		isStored := func(v ssa.Value) bool { return PathOf(v) == fn.Params[0].Name()+".verify" }
 		verify := find(func(cl *ssa.Call) bool {
 			return cl.Call.IsInvoke() && cl.Call.Method.Name() == "Verify" && len(cl.Call.Args) == 2 && isTok(cl.Call.Args[0]) && isStored(cl.Call.Args[1])
@@ -225,10 +227,14 @@ func runC08(c *Ctx) {
 			ex, ok := strip(v).(*ssa.Extract)
 			return ok && aj != nil && ex.Tuple == ssa.Value(aj) && ex.Index == 0
 		}
-		om := find(func(cl *ssa.Call) bool { return cl.Call.IsInvoke() && cl.Call.Method.Name() == "OnlineMode" && isResp(cl.Call.Value) })
+		om := find(func(cl *ssa.Call) bool {
+			return cl.Call.IsInvoke() && cl.Call.Method.Name() == "OnlineMode" && isResp(cl.Call.Value)
+		})
 		rule("OnlineMode", om != nil && dom(func(e Edge, cond ssa.Value, truth bool) bool { return truth && callValue(cond) == om }),
 			"the session server's response saying the account is an online-mode account")
-		gp := find(func(cl *ssa.Call) bool { return cl.Call.IsInvoke() && cl.Call.Method.Name() == "GameProfile" && isResp(cl.Call.Value) })
+		gp := find(func(cl *ssa.Call) bool {
+			return cl.Call.IsInvoke() && cl.Call.Method.Name() == "GameProfile" && isResp(cl.Call.Value)
+		})
 		rule("GameProfile", gp != nil && dom(func(e Edge, cond ssa.Value, truth bool) bool {
 			return errNilEdge(cond, truth, func(x *ssa.Call) bool { return x == gp })
 		}), "a game profile extracted from that response")
